@@ -1,4 +1,5 @@
 import PyTrie.Lemmas.HexIterProofs
+import PyTrie.Lemmas.NodesLoop
 import PyTrie.Props.C02
 /-! # C10 — NodeIterator enumerates contents in key order; next() is the strict successor
 
@@ -96,5 +97,13 @@ theorem nodes_preorder (ops : List Op) :
 theorem nodes_complete (ops : List Op) (p : Path) (n : Node)
     (h : nodeAt (run ops) p = some n) (hb : isBlank n = false) : (p, n) ∈ preorder (run ops) [] :=
   preorder_complete (run ops) (canon_run ops) p n h hb
+
+/-- **`nodes()` as written** — the loop over a `HexaryTrieFog` taking `nearest_right(())`, with a
+    `TrieFrontierCache` (`traverse` on a miss, `traverse_from(cached parent, segment)` on a hit), `explore`
+    and cache maintenance, transcribed in `Model/Iter.lean` — yields exactly the pre-order sequence, for
+    every reachable trie (fuel = any bound above the number of nodes) -/
+theorem nodes_loop_is_preorder (ops : List Op) (fuel : Nat) (hf : (preorder (run ops) []).length < fuel) :
+    nodesOf (run ops) fuel = preorder (run ops) [] :=
+  nodesOf_eq_preorder (run ops) (canon_run ops) fuel hf
 
 end PyTrie.Props.C10
